@@ -154,3 +154,14 @@ package rep
 //@   ensures cast("*socket", result).master.bestEffort == false
 //@
 // ---- end generated default contracts ----
+// ---- generated current-queue contracts (from `govc sites -select`): the select uses the socket's queues as of the last time the lock was held ----
+//@ func (*context).RecvMsg
+//@   before select#1 assert selwaits(c.s.recvQ)
+//@
+//@ func (*pipe).receiver
+//@   before select#1 assert selsends(p.s.recvQ)
+//@
+//@ func (*pipe).sender
+//@   before select#1 assert selwaits(p.sendQ)
+//@
+// ---- end generated current-queue contracts ----
